@@ -18,4 +18,4 @@ def run(ctx):
     state.r_memo_new(ctx)
     formula.r_regen(ctx)
     translate.r_leafreg(ctx)     # every registered leaf is re-assigned, unconditionally, after each successful solve
-    ctx.floor("accumulating writes examined", n, 8)
+    ctx.floor("accumulating writes examined", n, 5)
